@@ -133,6 +133,11 @@ class Trainer:
     class Decay:
       def factor(self, gamma='dg'):
         return ('factor', gamma)
+
+class FineTuner(Trainer):
+  def __init__(self, rounds=None, **kw):
+    super().__init__(**kw)
+    self.rounds = rounds
 ''')
   # a library module that registers nested classes / methods itself (by decorator) and is then used by a
   # dynamic-registration file; a top-level object shares the nested class's name
@@ -784,6 +789,56 @@ def run_spelling(case, res):
     res.w('spellings_one_configurable')
 
 
+# a class and a subclass of it that inherits a configured method: every order of first use
+INHERIT = {
+    'base_method_then_subclass': ("t.Trainer.fit.epochs = 3\nt.FineTuner.rounds = 2\nt.consume.source = @t.FineTuner()\n",
+                                  {'rounds': 2, 'fit': ('fit', 3)}),
+    'subclass_then_base_method': ("t.FineTuner.rounds = 2\nt.Trainer.fit.epochs = 3\nt.consume.source = @t.FineTuner()\n",
+                                  {'rounds': 2, 'fit': ('fit', 3)}),
+    'reference_to_subclass_then_base_method': ("t.consume.source = @t.FineTuner()\nt.Trainer.fit.epochs = 3\nt.FineTuner.rounds = 2\n",
+                                               {'rounds': 2, 'fit': ('fit', 3)}),
+    'method_through_subclass_then_base': ("t.FineTuner.fit.epochs = 3\nt.Trainer.lr = 1\nt.consume.source = @t.FineTuner()\n",
+                                          {'rounds': None, 'fit': ('fit', 3)}),
+    'base_and_subclass_instances': ("t.Trainer.fit.epochs = 3\nt.FineTuner.rounds = 2\nt.consume.source = [@t.FineTuner(), @t.Trainer()]\n",
+                                    {'rounds': 2, 'fit': ('fit', 3), 'second_fit': ('fit', 3)}),
+}
+
+
+def run_inherit(case, res):
+  name = case[1]
+  text, want = INHERIT[name]
+  text = SPELL_HEAD + 'from c19tool import c19tool as t\n' + text
+  harness.hard_reset()
+  MEM.clear()
+  res.case(tuple(case), True)
+  import c19tool  # pylint: disable=import-outside-toplevel
+  m = c19tool.c19tool
+
+  def observe():
+    v = gin.get_configurable(m.consume)()
+    inst = v[0] if isinstance(v, list) else v
+    out = {'rounds': inst.rounds, 'fit': inst.fit()}
+    if isinstance(v, list):
+      out['second_fit'] = v[1].fit()
+    return out
+  try:
+    gin.parse_config(text)
+    got = observe()
+    emitted = gin.config_str()
+    harness.hard_reset()
+    gin.parse_config(emitted)
+    again = observe()
+  except Exception as e:  # pylint: disable=broad-except
+    res.violation('inherited_method', '%r: config\n%s\nraised %r' % (case, text, e), list(case))
+    return
+  res.outcome('inherit')
+  if got != want or again != want:
+    res.violation('inherited_method', '%r: config\n%s\nconfigures %r (after re-parsing the config string %r), expected %r' %
+                  (case, text, got, again, want), list(case))
+  else:
+    res.w('inherited_method_configured')
+
+
 LIBREG = {
     'nested_binding': "import c19lib\nc19lib.Optimizer.Schedule.warmup = 10\n",
     'nested_reference': "import c19lib as L\nL.Optimizer.Schedule.warmup = 10\nL.consume.source = @L.Optimizer.Schedule()\n",
@@ -833,6 +888,8 @@ def gen(tier):
     yield ['spelling', n]
   for n in LIBREG:
     yield ['libreg', n]
+  for n in INHERIT:
+    yield ['inherit', n]
   for fi in range(len(NESTED_FORMS)):
     for order in (['ref', 'rate', 'factor', 'fit', 'steps'], ['rate', 'factor', 'fit', 'steps', 'ref'],
                   ['steps', 'ref', 'factor', 'rate', 'fit']):
@@ -865,7 +922,7 @@ def run_shard(i, tier):
     if n % NSH != i:
       continue
     try:
-      {'neg': run_negative, 'multi': run_multi, 'plain': run_plain, 'special': run_special, 'nested': run_nested, 'libreg': run_libreg, 'spelling': run_spelling}.get(c[0], run_case)(c, res)
+      {'neg': run_negative, 'multi': run_multi, 'plain': run_plain, 'special': run_special, 'nested': run_nested, 'libreg': run_libreg, 'spelling': run_spelling, 'inherit': run_inherit}.get(c[0], run_case)(c, res)
     except Exception:  # pylint: disable=broad-except
       import traceback
       res.extra['harness_error'] = traceback.format_exc() + '\ncase=%r' % (c,)
@@ -878,6 +935,6 @@ def run_shard(i, tier):
 
 def replay(c):
   res = core.Result()
-  {'neg': run_negative, 'multi': run_multi, 'plain': run_plain, 'special': run_special, 'nested': run_nested, 'libreg': run_libreg, 'spelling': run_spelling}.get(c[0], run_case)(c, res)
+  {'neg': run_negative, 'multi': run_multi, 'plain': run_plain, 'special': run_special, 'nested': run_nested, 'libreg': run_libreg, 'spelling': run_spelling, 'inherit': run_inherit}.get(c[0], run_case)(c, res)
   harness.hard_reset()
   return res
